@@ -49,6 +49,6 @@ func selftestDeterminism(args []string) {
 		fmt.Printf("determinism %s: %d runs x 6 processes (GOMAXPROCS 1/4/16 twice): %d mismatches\n", p.ID, n, fail)
 	}
 	if fail > 0 {
-		os.Exit(2)
+		exit(2)
 	}
 }
